@@ -5,6 +5,7 @@ CONSTANTS
   Modes = {"default", "zone"}
   MinHedge = {0, 1, 3}
   Terminals = {TRUE, FALSE}
+  GenCancel = TRUE
   NoCancels = {TRUE, FALSE}
 INIT GInit
 NEXT GNext
